@@ -403,7 +403,7 @@ pub fn run(tier: Tier, seed: u64, findings: &Findings) -> i32 {
         Err(e) => report.errors.push(e.0),
     }
     // (P)
-    let cases = tier.pick(4800, 400_000);
+    let cases = tier.pick(16_000, 400_000);
     report.merge(engine::run_generated(&check, &cfg, cases, 4, 16, findings, 0));
     engine::finish(
         Finish {
